@@ -3,6 +3,7 @@ package uePolicyContainer
 import (
 	"bytes"
 	"encoding/binary"
+	"fmt"
 	"io"
 )
 
@@ -103,7 +104,10 @@ func parseInstruction(buf *bytes.Buffer) (*Instruction, error) {
 	if err := binary.Read(buf, binary.BigEndian, &instruction.Upsc); err != nil {
 		return nil, err
 	}
-	// Ue policy section contents
+	// Ue policy section contents (the length covers the two UPSC octets)
+	if instruction.Len < 2 {
+		return nil, fmt.Errorf("instruction length should not be less than 2, got %d", instruction.Len)
+	}
 	if err := instruction.UEPolicySectionContents.UnmarshalBinary(buf.Next(int(instruction.Len) - 2)); err != nil {
 		return nil, err
 	}
